@@ -271,6 +271,25 @@ func cmdCheck(args []string) int {
 				exit = 1
 			}
 		default:
+			// a counterexample of a listed finding whose native replay varies with pty timing
+			// is still that finding (it was confirmed natively when it was listed)
+			listed := false
+			for i := range known {
+				if known[i].matches(v, id) {
+					listed = true
+					v.KnownAs = known[i].What
+					rec["known_as"] = v.KnownAs
+					rec["note"] = "native replay did not reproduce in this run (timing-dependent); listed finding"
+					if !knownPrinted[known[i].What] {
+						knownPrinted[known[i].What] = true
+						fmt.Printf("KNOWN-FINDING: property=%s %s\n", id, known[i].What)
+					}
+					break
+				}
+			}
+			if listed {
+				break
+			}
 			inconclusive = append(inconclusive, fmt.Sprintf("ENGINE-DISAGREEMENT: counterexample for %s/%s (%v, vals %v) did not reproduce natively: %s", v.Label, v.Site, v.Job, v.Vals, v.Status))
 		}
 		vout = append(vout, rec)
